@@ -227,3 +227,33 @@ let handle (x : t) : (int * string list) option =
   match x with
   | L [I 20; cap; delta; recv] -> Some (cmd_hop cap delta recv)
   | _ -> handle x
+
+(* (21 (input bytes) ok (ns bytes) (name bytes) (String() bytes))   nsname.Parse against NSName.ns_parse, and String of
+   the result against ns_string.  (22 (ns) (name) (String() bytes) ok (ns') (name'))   String then Parse. *)
+let d_bytes x = List.map (fun b -> n_of_int (d_int b)) (match x with L l -> l | _ -> bad "bytes")
+let show_bytes l = String.concat "," (List.map (fun b -> string_of_int (int_of_n b)) l)
+
+let cmd_nsparse input ok ns nm str =
+  let input = d_bytes input and ok = d_int ok <> 0 and ns = d_bytes ns and nm = d_bytes nm and str = d_bytes str in
+  match ns_parse input, ok with
+  | None, false -> if ns = [] && nm = [] then (1, []) else (1, ["kind=nsname Parse failed but returned a non-zero NSName input=" ^ show_bytes input])
+  | Some (a, b), true ->
+    if a <> ns || b <> nm then (1, [Printf.sprintf "kind=nsname Parse input=%s impl=(%s | %s) model=(%s | %s)" (show_bytes input) (show_bytes ns) (show_bytes nm) (show_bytes a) (show_bytes b)])
+    else if ns_string (a, b) <> str then (1, [Printf.sprintf "kind=nsname String of (%s | %s) impl=%s model=%s" (show_bytes a) (show_bytes b) (show_bytes str) (show_bytes (ns_string (a, b)))])
+    else (1, [])
+  | m, _ -> (1, [Printf.sprintf "kind=nsname Parse input=%s accepted impl=%b model=%b" (show_bytes input) ok (m <> None)])
+
+let cmd_nsround a b str ok a' b' =
+  let a = d_bytes a and b = d_bytes b and str = d_bytes str and ok = d_int ok <> 0 and a' = d_bytes a' and b' = d_bytes b' in
+  let mstr = ns_string (a, b) in
+  if mstr <> str then (1, [Printf.sprintf "kind=nsname String of (%s | %s) impl=%s model=%s" (show_bytes a) (show_bytes b) (show_bytes str) (show_bytes mstr)])
+  else match ns_parse mstr, ok with
+    | None, false -> (1, [])
+    | Some (x, y), true when x = a' && y = b' -> (1, [])
+    | _ -> (1, [Printf.sprintf "kind=nsname Parse(String(%s | %s)) differs from the model" (show_bytes a) (show_bytes b)])
+
+let handle (x : t) : (int * string list) option =
+  match x with
+  | L [I 21; input; ok; ns; nm; str] -> Some (cmd_nsparse input ok ns nm str)
+  | L [I 22; a; b; str; ok; a'; b'] -> Some (cmd_nsround a b str ok a' b')
+  | _ -> handle x
